@@ -80,6 +80,11 @@ theorem indices_bounds (c : Crystal) {T : ℝ} (hT1 : Tmin ≤ T) (hT2 : T ≤ T
   ⟨indices_comp_bounds c hT1 hT2 h1 h2 0, indices_comp_bounds c hT1 hT2 h1 h2 1,
    indices_comp_bounds c hT1 hT2 h1 h2 2⟩
 
+/-- non-vacuity: KTP at the window's lower edge, −50 °C -/
+example : 1 < (indices Crystal.KTP (350e-9 : ℝ) Tmin).y ∧ (indices Crystal.KTP (350e-9 : ℝ) Tmin).y < 4 :=
+  (indices_bounds .KTP (le_refl _) (by norm_num [Tmin, Tmax]) (by norm_num [windowLo])
+    (by norm_num [windowHi])).2.1
+
 /-- the hypotheses are satisfiable: BBO at 800 nm < 1550 nm, 20 °C -/
 example : (indices Crystal.BBO_1 (1550e-9 : ℝ) Tref).z < (indices Crystal.BBO_1 (800e-9 : ℝ) Tref).z :=
   (indices_strictAnti_in_wavelength .BBO_1 (by norm_num [Tmin, Tref]) (by norm_num [Tmax, Tref])
@@ -192,6 +197,12 @@ theorem temperature_reference (c : Crystal) (d : Vec3 ℝ) (h : dn c = some d) (
        Real.sqrt (nSq c (microns lam) Tref).z⟩ := by
   cases c <;> simp only [dn, reduceCtorEq] at h <;>
     simp [indices, dn, tempOffset, Tref, Transc.sqrt] <;> norm_num
+
+/-- non-vacuity of the hypotheses of the temperature theorems -/
+example : tempKnown Crystal.KDP_1 = false := rfl
+example : dn (α := ℝ) Crystal.BBO_1 = some ⟨-9.3e-6, -9.3e-6, -16.6e-6⟩ := rfl
+example : (indices Crystal.KDP_1 (1064e-9 : ℝ) 0 = indices Crystal.KDP_1 (1064e-9 : ℝ) 400) :=
+  temperature_independent .KDP_1 rfl _ _ _
 
 /-- LiNb_MgO follows the published law: temperature enters only through
 `F = (T_c − 24.5)(T_c + 570.82)` inside the Sellmeier equation … -/
